@@ -27,7 +27,8 @@ def configs(thorough):
                 ("oddrids", ["addShape", "picture", "textbox", "save", "reopen", "addSlide", "notes", "access"], 3, [10], None), ("links", LINKS, 4, [5], None), ("links2", LINKS, 3, [2], None),
                 ("generic", ["addShape", "picture", "movie", "save", "reopen", "addSlide", "notes", "access", "removeLayout"], 3, [11], None),
                 ("gap", ["addShape", "chart", "ole", "replaceData", "save", "reopen", "notes"], 3, [12], None),
-                ("masters", ["rejected", "save", "reopen", "access", "coreProps"], 3, [13], None),
+                ("masters", ["rejected", "save", "reopen", "access", "coreProps"], 3, [14], None),
+                ("notesgap", ["notes", "access", "save", "reopen", "addSlide"], 3, [13], None),
                 ("sim", FULL, 10, [1, 2, 3, 4, 5], "num=600")]
     return [("pack", PACK, 3, [1, 2], None), ("media", MEDIA, 3, [5], None), ("links", LINKS, 3, [5], None), ("gc", GC, 4, [7], None),
             ("dup", ["addShape", "picture", "reopen", "save", "access"], 2, [8], None),
@@ -35,7 +36,8 @@ def configs(thorough):
             ("oddrids", ["addShape", "picture", "textbox", "save", "reopen", "addSlide", "notes"], 2, [10], None),
             ("generic", ["addShape", "picture", "save", "reopen", "addSlide"], 2, [11], None),
             ("gap", ["addShape", "chart", "reopen"], 3, [12], None),
-            ("masters", ["rejected", "save", "reopen"], 2, [13], None),
+            ("masters", ["rejected", "save", "reopen"], 2, [14], None),
+            ("notesgap", ["notes", "access", "reopen"], 2, [13], None),
             ("sim", FULL, 9, [1, 2, 3, 4, 5, 7, 8], "num=60")]
 
 
